@@ -23,9 +23,10 @@ func envInt(name string, def int64) int64 {
 }
 
 // TestBatcher generates (or re-runs) Batcher scenarios and records their histories.
-//   VERIF_FAMILY  generator family (e.g. C01)        VERIF_SEED  seed
-//   VERIF_N       number of scenarios                VERIF_OUT   output directory
-//   VERIF_FROM    first scenario index (shards)      VERIF_SCRIPT re-run this history/script file
+//
+//	VERIF_FAMILY  generator family (e.g. C01)        VERIF_SEED  seed
+//	VERIF_N       number of scenarios                VERIF_OUT   output directory
+//	VERIF_FROM    first scenario index (shards)      VERIF_SCRIPT re-run this history/script file
 func TestBatcher(t *testing.T) {
 	out := os.Getenv("VERIF_OUT")
 	if out == "" {
@@ -221,5 +222,44 @@ func TestStress(t *testing.T) {
 	fmt.Printf("STRESS panics v1=%d v2=%d\n", p1, p2)
 	if p1+p2 > 0 {
 		t.Fatalf("panics under concurrent use: v1=%d v2=%d", p1, p2)
+	}
+}
+
+// TestSharedRT: real-time scenarios of the shared resources (shared_rt.go); monitor-only histories.
+func TestSharedRT(t *testing.T) {
+	out := os.Getenv("VERIF_OUT")
+	if out == "" {
+		t.Skip("VERIF_OUT not set")
+	}
+	os.MkdirAll(out, 0o755)
+	if script := os.Getenv("VERIF_SCRIPT"); script != "" {
+		data, err := os.ReadFile(script)
+		if err != nil {
+			t.Fatal(err)
+		}
+		var s int64
+		for _, line := range strings.Split(string(data), "\n") {
+			if _, err := fmt.Sscanf(line, "# seed %d", &s); err == nil {
+				break
+			}
+		}
+		f, err := os.Create(filepath.Join(out, "replay.hist"))
+		if err != nil {
+			t.Fatal(err)
+		}
+		RunSharedRT(s, f)
+		f.Close()
+		return
+	}
+	seed := envInt("VERIF_SEED", 1)
+	from := envInt("VERIF_FROM", 0)
+	n := int(envInt("VERIF_N", 1))
+	for i := 0; i < n; i++ {
+		f, err := os.Create(filepath.Join(out, fmt.Sprintf("rt-shared-%d-%05d.hist", seed, from+int64(i))))
+		if err != nil {
+			t.Fatal(err)
+		}
+		RunSharedRT(seed*104729+from+int64(i), f)
+		f.Close()
 	}
 }
